@@ -158,6 +158,28 @@ impl Scenario for C17 {
             let at = if typed_ahead && i < 3 { 0 } else { rng.below(span_ns) };
             events.push(TimedEv { at_ns: at, ev: gen_ev(rng, nav_bias) });
         }
+        // scripted: search for something that matches only some aircraft, then navigate
+        if rng.chance(0.35) {
+            let mut t = rng.below(span_ns);
+            let q = *rng.pick(&['0', '1', '2', '3', '4', 's', 'm', 'x']);
+            let mut script = vec![Ev::Ch('/'), Ev::Ch(q)];
+            if rng.chance(0.5) {
+                script.push(Ev::Enter);
+            }
+            for _ in 0..rng.usize(1, 6) {
+                script.push(match rng.below(6) {
+                    0 | 1 => Ev::Down,
+                    2 => Ev::Up,
+                    3 => Ev::Ch('j'),
+                    4 => Ev::Ch('k'),
+                    _ => Ev::ScrollDown,
+                });
+            }
+            for ev in script {
+                events.push(TimedEv { at_ns: t, ev });
+                t += rng.range(1_000_000, 400_000_000);
+            }
+        }
         let mut t = 0;
         while t < span_ns {
             events.push(TimedEv { at_ns: t, ev: Ev::Tick });
@@ -311,6 +333,9 @@ impl Scenario for C17 {
                 "rows_disappeared_while_selected",
                 "sort_key_changed",
                 "max_rows",
+                "rows_read_back_from_screen",
+                "screen_rows_differ_from_item_list",
+                "search_hides_some_rows",
             ],
         }
     }
@@ -381,26 +406,61 @@ fn model(mut f: Flags, code: &KeyCode) -> Flags {
     f
 }
 
-fn in_range(a: &Jet1090) -> bool {
-    let n = a.items.len();
+/// `shown` = number of rows the last draw actually put on the terminal (read
+/// back from the rendered frame), when it could be read; otherwise the
+/// application's own row list is the table
+fn in_range(a: &Jet1090, shown: Option<usize>) -> bool {
+    let n = shown.unwrap_or(a.items.len());
     a.state.selected().map_or(true, |i| if n == 0 { i == 0 } else { i < n })
 }
 
-struct Shared {
-    viol: Option<Violation>,
-    counters: BTreeMap<&'static str, u64>,
-    drew_once: bool,
-    max_rows: u64,
-    keys_handled: u64,
-    quit_seen_at_step: Option<u64>,
-    tui_ended: bool,
-    perturbed: bool,
+/// number N of the "jet1090 (N aircraft)" title in the rendered frame
+fn rows_on_screen(buf: &ratatui::buffer::Buffer) -> Option<usize> {
+    let area = buf.area;
+    for y in (0..area.height).rev() {
+        let mut line = String::new();
+        for x in 0..area.width {
+            if let Some(c) = buf.cell((x, y)) {
+                line.push_str(c.symbol());
+            }
+        }
+        if let Some(i) = line.find("jet1090 (") {
+            let rest = &line[i + 9..];
+            if let Some(j) = rest.find(" aircraft)") {
+                return rest[..j].trim().parse::<usize>().ok();
+            }
+        }
+    }
+    None
+}
+
+pub struct Shared {
+    pub viol: Option<Violation>,
+    pub counters: BTreeMap<&'static str, u64>,
+    pub drew_once: bool,
+    pub max_rows: u64,
+    pub keys_handled: u64,
+    pub quit_seen_at_step: Option<u64>,
+    pub tui_ended: bool,
+    pub perturbed: bool,
 }
 impl Shared {
-    fn count(&mut self, k: &'static str) {
+    pub fn new() -> Shared {
+        Shared {
+            viol: None,
+            counters: BTreeMap::new(),
+            drew_once: false,
+            max_rows: 0,
+            keys_handled: 0,
+            quit_seen_at_step: None,
+            tui_ended: false,
+            perturbed: false,
+        }
+    }
+    pub fn count(&mut self, k: &'static str) {
         *self.counters.entry(k).or_insert(0) += 1;
     }
-    fn set(&mut self, v: Violation) {
+    pub fn set(&mut self, v: Violation) {
         if self.viol.is_none() {
             self.viol = Some(v);
         }
@@ -432,23 +492,18 @@ fn key_name(code: &KeyCode) -> String {
     }
 }
 
-pub fn execute(plan: &C17Plan) -> Outcome<C17Plan> {
-    let mut out = Outcome::new();
-    out.evaluations = 1;
-    out.sched_policy = plan.sched.policy_name();
-    let mut sim = Sim::new(&plan.sched);
-    let app = Arc::new(Mutex::new(app::new_app(plan.term_w)));
-    let shared = Rc::new(RefCell::new(Shared {
-        viol: None,
-        counters: BTreeMap::new(),
-        drew_once: false,
-        max_rows: 0,
-        keys_handled: 0,
-        quit_seen_at_step: None,
-        tui_ended: false,
-        perturbed: false,
-    }));
-
+/// Spawn the event reader (stub) and the TUI task (re-stated loop around the real
+/// update() and build_table()); used by the focused C17 scenario and by the pipeline.
+pub fn spawn_tui(
+    sim: &mut Sim,
+    app: &Arc<Mutex<Jet1090>>,
+    events: &[TimedEv],
+    term_w: u16,
+    term_h: u16,
+    shared: &Rc<RefCell<Shared>>,
+) -> exec::TaskId {
+    let app = app.clone();
+    let shared = shared.clone();
     // ---- event source (stub of tui::EventHandler's reader task) -----------
     // resize events change the backend size right away (the terminal is what
     // it is) and the width carried by later ticks
@@ -458,8 +513,8 @@ pub fn execute(plan: &C17Plan) -> Outcome<C17Plan> {
     }
     let (ev_tx, mut ev_rx) = tokio::sync::mpsc::unbounded_channel::<ToTui>();
     {
-        let events = plan.events.clone();
-        let mut width = plan.term_w;
+        let events = events.to_vec();
+        let mut width = term_w;
         let sh = shared.clone();
         let app_q = app.clone();
         sim.spawn("event-reader(stub)", async move {
@@ -513,12 +568,14 @@ pub fn execute(plan: &C17Plan) -> Outcome<C17Plan> {
     let tui_task = {
         let app_tui = app.clone();
         let sh = shared.clone();
-        let (w, h) = (plan.term_w, plan.term_h);
+        let (w, h) = (term_w, term_h);
         sim.spawn("tui-loop(stub)+update/build_table(real)", async move {
             let mut terminal = match Terminal::new(TestBackend::new(w, h)) {
                 Ok(t) => t,
                 Err(_) => return,
             };
+            // rows put on the screen by the last draw, read back from the frame
+            let mut shown: Option<usize> = None;
             loop {
                 match ev_rx.recv().await {
                     Some(ToTui::Resize(w, h)) => {
@@ -527,9 +584,9 @@ pub fn execute(plan: &C17Plan) -> Outcome<C17Plan> {
                     }
                     Some(ToTui::Event(event)) => {
                         let mut g = app_tui.lock().await;
-                        let pre_ok = in_range(&g);
+                        let pre_ok = in_range(&g, shown);
                         let pre_flags = flags_of(&g);
-                        let n = g.items.len();
+                        let n = shown.unwrap_or(g.items.len());
                         let sel = g.state.selected();
                         let key = match &event {
                             Event::Key(k) => Some(k.code),
@@ -579,12 +636,12 @@ pub fn execute(plan: &C17Plan) -> Outcome<C17Plan> {
                             Ok(Ok(())) => {}
                         }
                         // clause 2: selection in range afterwards (given it was before)
-                        if pre_ok && !in_range(&g) {
+                        if pre_ok && !in_range(&g, shown) {
                             let what = key.as_ref().map(key_name).unwrap_or("tick".into());
                             sh.borrow_mut().set(Violation::new(
                                 "c17.2-selection",
                                 format!("after-{}", if n == 0 { "key-on-empty-table" } else { "key-on-nonempty-table" }),
-                                format!("after key {} the selection is {:?} with {} rows displayed (it was {:?})", what, g.state.selected(), g.items.len(), sel),
+                                format!("after key {} the selection is {:?} with {} rows displayed (it was {:?})", what, g.state.selected(), shown.unwrap_or(g.items.len()), sel),
                             ));
                         }
                         // clause 3: flags follow the documented key map
@@ -679,7 +736,17 @@ pub fn execute(plan: &C17Plan) -> Outcome<C17Plan> {
                     if (rows as usize) > before_rows {
                         s.perturbed = true;
                     }
-                    if !in_range(&g) {
+                    shown = rows_on_screen(terminal.backend().buffer());
+                    if shown.is_some() {
+                        s.count("rows_read_back_from_screen");
+                        if shown != Some(g.items.len()) {
+                            s.count("screen_rows_differ_from_item_list");
+                        }
+                    }
+                    if !g.search_query.is_empty() && shown.map_or(false, |n| n > 0 && n < g.state_vectors.len()) {
+                        s.count("search_hides_some_rows");
+                    }
+                    if !in_range(&g, shown) {
                         s.count("selection_out_of_range_after_draw");
                     }
                     let a = terminal.backend().buffer().area;
@@ -693,6 +760,19 @@ pub fn execute(plan: &C17Plan) -> Outcome<C17Plan> {
             sh.borrow_mut().tui_ended = true;
         })
     };
+
+    tui_task
+}
+
+pub fn execute(plan: &C17Plan) -> Outcome<C17Plan> {
+    let mut out = Outcome::new();
+    out.evaluations = 1;
+    out.sched_policy = plan.sched.policy_name();
+    let mut sim = Sim::new(&plan.sched);
+    let app = Arc::new(Mutex::new(app::new_app(plan.term_w)));
+    let shared = Rc::new(RefCell::new(Shared::new()));
+
+    let tui_task = spawn_tui(&mut sim, &app, &plan.events, plan.term_w, plan.term_h, &shared);
 
     // ---- decoder: rows appear through the real update_snapshot --------------
     {
